@@ -61,10 +61,11 @@ type Contract struct {
 	Allocates []string // for assumed contracts: component names that may receive fresh objects
 	Bounded   string   // bounded-standin description
 	Havoc     bool     // assumed: havoc all state (unknown side effects)
+	Summary   bool     // callers use the computed write set of the body (never inlined, nothing assumed)
 	Reveal    []string // opaque spec functions whose definition this function's proof may use
 }
 
-var kwRe = regexp.MustCompile(`^(axiom|func|props|requires|ensures|lemma|reveal|modifies|loop|decreases|assumed|pure|nosafety|inline|maypanic|note|let|allocates|bounded-standin|havoc)\b`)
+var kwRe = regexp.MustCompile(`^(axiom|func|props|requires|ensures|lemma|reveal|summary|modifies|loop|decreases|assumed|pure|nosafety|inline|maypanic|note|let|allocates|bounded-standin|havoc)\b`)
 var funcRe = regexp.MustCompile(`^func\s+(\([^)]*\)\.)?([A-Za-z0-9_./$#\-]+)\s*\(([^)]*)\)\s*(\(([^)]*)\))?\s*$`)
 
 // parseContractFile reads contracts from a file. pkgPath qualifies
@@ -192,6 +193,9 @@ func parseContractFile(path, pkgPath string) ([]*Contract, []Clause, error) {
 			}
 		case "havoc":
 			cur.Havoc = true
+		case "summary":
+			// no contract of its own: callers use the write set computed from the body
+			cur.Summary = true
 		case "pure":
 			cur.Pure = true
 		case "nosafety":
